@@ -168,6 +168,19 @@ pub fn check_filter(s: &str, packets: bool, all_fronts: bool) -> Result<bool, St
                     return Err(format!("{}: v3 {} / v5 {} but the specification says {}", what, a3, a5, if want { "valid" } else { "invalid" }));
                 }
             }
+            // a filter that is not a shared subscription (it does not start with "$share/") may be subscribed to with any
+            // option bits, No Local included - also when it merely looks like one ("$share", "$sharex/y", "$Share/g/t")
+            if typ == model::T_SUBSCRIBE && !s.starts_with("$share/") && s.len() <= 60_000 {
+                for opt in [0b0000_0100u8, 0b0010_1110] {
+                    let body = Body::Subscribe { pid: 9, props: Some(Props::default()), topics: vec![(s.as_bytes().to_vec(), opt)] };
+                    let frame = model::serialize(&WPacket::new(Fam::V5, (typ << 4) | 2, body)).unwrap_or_default();
+                    let what = format!("v5 SUBSCRIBE carrying the non-shared filter {:?} with the option byte {:#04x} (No Local set)", s, opt);
+                    let acc = packet_decision::<V5>(&frame, &e5, &what, all_fronts)?;
+                    if acc != want {
+                        return Err(format!("{}: {} but the specification says {}", what, if acc { "accepted" } else { "rejected" }, if want { "valid" } else { "invalid" }));
+                    }
+                }
+            }
             if all_fronts && s.len() <= 60_000 {
                 // the filter in first, middle and last position of a longer list, and twice
                 let ok: &[u8] = b"ok/+";
